@@ -207,6 +207,7 @@ func cmdCheck(args []string) int {
 		}
 	}
 
+	activeLayer = prop
 	w, err := loadWorld(*repo, true)
 	var run *checkRun
 	if err != nil {
